@@ -20,10 +20,23 @@ def run_impl(case):
     writable = rnd.random() < 0.75
     init = [lib.bits(rnd, dw) for _ in range(depth)] if rnd.random() < 0.7 else []
     # the image is "an iterable of initial values": a list, a tuple, or a one-shot iterator / generator
-    how = lib.rng_for(case["seed"], case["idx"], 1535).choice(["list", "list", "tuple", "iter", "gen", "map"])
+    how = lib.rng_for(case["seed"], case["idx"], 1535).choice(["list", "list", "tuple", "iter", "gen", "map", "bytes", "bytearray", "range"])
+    if how in ("bytes", "bytearray"):
+        init = [v & 0xff for v in init]            # a bytes-like image is an iterable of row values 0..255 like any other
+    elif how == "range":
+        init = list(range(len(init)))
     given = {"list": lambda: list(init), "tuple": lambda: tuple(init), "iter": lambda: iter(init),
-             "gen": lambda: (v for v in init), "map": lambda: map(int, init)}[how]()
-    dut = WishboneSRAM(size=size, data_width=dw, granularity=gran, writable=writable, init=given)
+             "gen": lambda: (v for v in init), "map": lambda: map(int, init), "bytes": lambda: bytes(init),
+             "bytearray": lambda: bytearray(init), "range": lambda: range(len(init))}[how]()
+    cls_ = WishboneSRAM
+    if writable and lib.rng_for(case["seed"], case["idx"], 1545).random() < 0.1:
+        # a user's boot-ROM class: the public `writable` property overridden to False on a subclass — what the object reports
+        # is what the hardware does
+        class BootROM(WishboneSRAM):
+            writable = False
+        cls_ = BootROM
+    dut = cls_(size=size, data_width=dw, granularity=gran, writable=writable, init=given)
+    writable = bool(dut.writable)
     if rnd.random() < 0.3:
         # the init image may also be (re)assigned through the `init` property after construction
         init = [lib.bits(rnd, dw) for _ in range(depth)]
